@@ -100,7 +100,10 @@ def build(setup):
         if st['decimal_separator'] != '.':
             src['decimal_separator'] = st['decimal_separator']
         sources.append(src)
-    if setup['supplemental']:
+    if setup['supplemental'] and setup.get('supp_missing'):
+        sources.append({'name': 'orders', 'file': 'data/orders.csv', 'format': '{date:%m/%d/%Y}, {id}, {item}, {amount}',
+                        'columns': {'description': '{item}'}, 'supplemental': True})            # configured, but the file is not there
+    elif setup['supplemental']:
         b.write('data/orders.csv', 'Date,Id,Item,Amount\n' + '\n'.join('01/01/2025,%s,%s,5.00' % o for o in ORDERS) + '\n')
         sources.append({'name': 'orders', 'file': 'data/orders.csv', 'format': '{date:%m/%d/%Y}, {id}, {item}, {amount}',
                         'columns': {'description': '{item}'}, 'supplemental': True})
@@ -131,7 +134,7 @@ def classify(desc, amount, setup):
         cand.append(('Cart', 'Food', 'Street', [], (50, 1, 0, 4)))
     if 'COFFEE' in desc:
         cand.append(('Coffee', 'Food', 'Coffee', ['daily'], (50, 1, 0, 6)))
-    if 'ORDER' in desc and setup['supplemental'] and any(('ORDER %s' % i) in desc for i, _ in ORDERS):
+    if 'ORDER' in desc and setup['supplemental'] and not setup.get('supp_missing') and any(('ORDER %s' % i) in desc for i, _ in ORDERS):
         cand.append(('Order', 'Shopping', 'Online', ['matched'], (50, 1, 0, 5)))
     large = amount > 500 or (setup.get('specific_rules') and 'COFFEE ROASTERS WHOLESALE' in desc)
     if large:
@@ -209,6 +212,14 @@ def check(setup, label):
             continue
         if norm(got) != norm(want):
             O.fail('C11.report_differs.%s%s' % (label.split(':')[0], '.quiet' if quiet else ''), dict(w, quiet=quiet), norm(want), norm(got), 'tally up --format json -v')
+        if not quiet:
+            # "a source that is missing or unreadable is reported": its name is on a progress line that does not announce transactions
+            gone = [n for n in ('Card', 'Bank', 'Euro') if not setup[n]['present'] or not setup[n]['readable']] + (['orders'] if setup.get('supp_missing') else [])
+            for name in gone:
+                lines = [l for l in info.split('\n') if l.strip().startswith(name + ':')]
+                if not lines or any(l.strip().endswith('transactions') for l in lines):
+                    O.fail('C11.unusable_source_not_reported', dict(w, source=name), 'a line naming the source and what is wrong with it', lines or 'no line for it',
+                           'progress output of tally up (not --quiet)')
     return True
 
 
@@ -231,7 +242,7 @@ def main():
                 if key == 'decimal_separator' and v == ',' and s[src]['delimiter'] is None:
                     s[src]['delimiter'] = ';'
                 check(s, '%s.%s:%r' % (src, key, v))
-    for key, v in (('rule_mode', 'most_specific'), ('views', True), ('supplemental', False), ('specific_rules', True), ('supp_euro', True), ('supp_named', True)):
+    for key, v in (('rule_mode', 'most_specific'), ('views', True), ('supplemental', False), ('specific_rules', True), ('supp_euro', True), ('supp_named', True), ('supp_missing', True)):
         s = copy.deepcopy(base)
         s[key] = v
         check(s, '%s:%r' % (key, v))
